@@ -158,6 +158,13 @@ class Assoc:
         self.pairs = list(pairs)
 
 
+class StarKey:
+    """marker for a call f(*key) whose only positional arguments are the labels of a symbolic key"""
+
+    def __init__(self, key):
+        self.key = key
+
+
 class AssignVal:
     """the ghost assignment viewed as a python mapping/sequence argument: x[i] -> xval(i) / zval(i) / aval(i)"""
 
